@@ -7,6 +7,7 @@ import (
 
 	d "github.com/ostafen/clover/v2/document"
 	"github.com/ostafen/clover/v2/internal"
+	"github.com/ostafen/clover/v2/query"
 )
 
 // sortNode.Finish must stop at, and return, the first non-nil result of the next node
@@ -38,5 +39,62 @@ func TestVerifReplaySortFinish(t *testing.T) {
 	}
 	if failed > 0 {
 		t.Fatal("sortNode.Finish ignores the result of the next node")
+	}
+}
+
+// Bulk writes must not depend on how a store cursor behaves while the transaction is being written
+// (C03, C06, C15): every matched document is updated exactly once; DropCollection removes everything.
+func TestVerifReplayBulkUnderCursor(t *testing.T) {
+	failed := 0
+	for _, n := range []int{50, 200, 1000} {
+		dir := t.TempDir()
+		db, err := Open(dir)
+		if err != nil {
+			t.Fatal(err)
+		}
+		db.CreateCollection("c")
+		docs := make([]*d.Document, 0, n)
+		for i := 0; i < n; i++ {
+			doc := d.NewDocument()
+			doc.Set("x", i)
+			doc.Set("y", i%7)
+			docs = append(docs, doc)
+		}
+		db.Insert("c", docs...)
+		db.CreateIndex("c", "x")
+		db.CreateIndex("c", "y")
+		calls := 0
+		err = db.UpdateFunc(query.NewQuery("c").Where(query.Field("x").GtEq(0)), func(doc *d.Document) *d.Document {
+			calls++
+			nd := doc.Copy()
+			nd.Set("x", doc.Get("x").(int64)+100000)
+			return nd
+		})
+		updated, _ := db.Count(query.NewQuery("c").Where(query.Field("x").GtEq(100000)))
+		if err != nil || calls != n || updated != n {
+			fmt.Printf("REPLAY FAIL scenario: UpdateFunc over %d documents selected through an index on the rewritten field: updater ran %d times, %d documents updated, err=%v\n", n, calls, updated, err)
+			failed++
+		} else {
+			fmt.Printf("REPLAY PASS scenario: UpdateFunc over %d documents: updater ran %d times\n", n, calls)
+		}
+		db.DropCollection("c")
+		db.CreateCollection("c")
+		left, _ := db.FindAll(query.NewQuery("c"))
+		viaIdx := 0
+		if has, _ := db.HasIndex("c", "x"); !has {
+			db.CreateIndex("c", "x")
+			r, _ := db.FindAll(query.NewQuery("c").Sort(query.SortOption{Field: "x"}))
+			viaIdx = len(r)
+		}
+		if len(left) != 0 || viaIdx != 0 {
+			fmt.Printf("REPLAY FAIL scenario: DropCollection of %d documents with 2 indexes left %d documents and %d index entries behind\n", n, len(left), viaIdx)
+			failed++
+		} else {
+			fmt.Printf("REPLAY PASS scenario: DropCollection of %d documents left nothing behind\n", n)
+		}
+		db.Close()
+	}
+	if failed > 0 {
+		t.Fatal("bulk writes under an open cursor lose documents")
 	}
 }
